@@ -496,6 +496,10 @@ def rule_P(ctx):
     c20.rule_P(Proxy(ctx, {'C20.P': 'C10.P'}))
     # ... and the wrapper used by map-matching projects on the current geometry of the edge
     c20.proj_on_track_rule(ctx, 'C10.P')
+    # ... and the point returned lies on the closed segment (also at projected-coordinate magnitudes, for a foot a few centimetres beyond an end)
+    f_, bad_, n_ = c20._proj_segment_cases(ctx)
+    ctx.check(not bad_, 'C10.P', f_, 'proj_segment answers the nearest point of the closed segment: the matched point lies on the edge geometry (%d interpreted cases)' % n_,
+              witness={'counter-examples': bad_}, node=f_.node, key='on-segment')
 
 
 def rule_V(ctx):
